@@ -15,7 +15,11 @@ func init() { gens["C09"] = genC09 }
 
 var c09Nums = []string{"1", "1.0", "1e0", "0x1p0", "1k", "1000", "1Ki", "1024", "NaN", "nan", "-0", "0",
 	"foo", "bar", "12abc", "x12", "2", "10", "1M", "1MiB", "1kB", "1KB", "Inf", "-Inf", "+1", "1e3", ".5", "5e-1",
-	"1..2", ".", "1e400", "1ki", "1i", "2Gi", "2G", "abc1.5Mxyz", "-1", "-1k", "1Y", "1Yi", "0.0", "1K"}
+	"1..2", ".", "1e400", "1ki", "1i", "2Gi", "2G", "abc1.5Mxyz", "-1", "-1k", "1Y", "1Yi", "0.0", "1K",
+	// signed numbers with a suffix next to plain numbers around them, signs that do
+	// not belong to a numeral (inside a word, doubled, alone, before a letter)
+	"-2k", "-1500", "-1000", "+1k", "-1Ki", "-1024", "-.5k", "-500", "x-1k", "-x1k", "+-1k", "--1", "-", "+", "-k",
+	"-1.5M", "+.5", "-1e3", "-1kB", "a-1", "-0k", "-1..2k"}
 
 var c09Pools = pxPools{
 	cfgKeys:  []string{"k1", "k2", "k3", "goos", "n"},
@@ -24,8 +28,8 @@ var c09Pools = pxPools{
 		"goos": {"linux", "darwin", "plan9"},
 	},
 	defVals:   c09Nums,
-	subVals:   []string{"1", "1.0", "1k", "1000", "1Ki", "1024", "x12", "12abc", "nan", "NaN", "0", "2", "foo", ""},
-	fixedPool: []string{"1", "1.0", "1k", "foo", "bar", "linux", "darwin", "2", "NaN", "0"},
+	subVals:   []string{"1", "1.0", "1k", "1000", "1Ki", "1024", "x12", "12abc", "nan", "NaN", "0", "2", "foo", "", "-1k", "-1", "-2k", "+1k"},
+	fixedPool: []string{"1", "1.0", "1k", "foo", "bar", "linux", "darwin", "2", "NaN", "0", "-1k", "-1"},
 	orders:    []string{"first", "first", "alpha", "num", "num", "num", "fixed"},
 }
 
@@ -46,6 +50,12 @@ func c09SuffixValues(li int) []string {
 			vs = append(vs, m+p+suf)
 		}
 	}
+	// signed spellings of the same letter, and plain negative numbers around them
+	for _, m := range []string{"-1", "-2", "-1.5", "-.5", "+1", "+2", "-999", "-1025"} {
+		for _, suf := range []string{"", "i", "B", "iB"} {
+			vs = append(vs, m+p+suf)
+		}
+	}
 	pw := func(base int64, e int) *big.Int {
 		return new(big.Int).Exp(big.NewInt(base), big.NewInt(int64(e)), nil)
 	}
@@ -58,6 +68,8 @@ func c09SuffixValues(li int) []string {
 			vs = append(vs, x.String())
 			if ee == e {
 				one := big.NewInt(1)
+				vs = append(vs, "-"+x.String(), "-"+new(big.Int).Add(x, one).String(), "-"+new(big.Int).Mul(x, big.NewInt(2)).String(),
+					"-"+new(big.Int).Div(x, big.NewInt(2)).String())
 				vs = append(vs, new(big.Int).Sub(x, one).String(), new(big.Int).Add(x, one).String(),
 					new(big.Int).Mul(x, big.NewInt(2)).String(), new(big.Int).Mul(x, big.NewInt(999)).String(),
 					new(big.Int).Div(new(big.Int).Mul(x, big.NewInt(3)), big.NewInt(2)).String(),
@@ -65,7 +77,7 @@ func c09SuffixValues(li int) []string {
 			}
 		}
 	}
-	vs = append(vs, fmt.Sprintf("1e%d", 3*e), fmt.Sprintf("1.5e%d", 3*e), fmt.Sprintf("2e%d", 3*e), "0", "1", "NaN", "x", "1"+p+"x", "y2"+p+"i")
+	vs = append(vs, fmt.Sprintf("1e%d", 3*e), fmt.Sprintf("1.5e%d", 3*e), fmt.Sprintf("2e%d", 3*e), "0", "1", "-1", "NaN", "x", "1"+p+"x", "y2"+p+"i", "y-2"+p, "-y2"+p, fmt.Sprintf("-1e%d", 3*e), fmt.Sprintf("-1.5e%d", 3*e))
 	return vs
 }
 
@@ -97,8 +109,97 @@ func c09SuffixCase(o *hx.Out, r *hx.Rng, vals []string, n int, tag string) error
 	return pxProtoCase(o, r, []*pxExpr{e1, e2}, st, [][]int{{0, 1}}, true)
 }
 
+// c09MissingFirst: projections whose .config group (named, or as the residue)
+// is ordered by first observation, over a stream in which file keys come and
+// go: a sub-field is created when Keys already exist (they lack it), Keys
+// lacking it are interned again later, values of other sub-fields repeat. The
+// missing value "" of a sub-field is a value like any other in its order.
+func c09MissingFirst(o *hx.Out, r *hx.Rng, n int) error {
+	keys := pxShuffled(r, []string{"goos", "pkg", "cpu", "k1", "k2"})
+	keys = keys[:r.Range(2, len(keys))]
+	var es []*pxExpr
+	switch r.Intn(4) {
+	case 0:
+		es = append(es, pxE(false, r, pxSpec{Key: ".config", Order: "first"}))
+	case 1: // the residue holds .config
+		es = append(es, pxE(false, r, pxFirst(".fullname")))
+	case 2: // one key taken out of the group, before it
+		es = append(es, pxE(false, r, pxSpec{Key: keys[0], Order: r.Pick([]string{"first", "alpha", "num"})}, pxSpec{Key: ".config", Order: "first"}))
+	default: // with .unit
+		es = append(es, pxE(true, r, pxSpec{Key: ".config", Order: "first"}))
+	}
+	vals := []string{"a", "b", "p", "1", "-1k"}
+	var st []pxResult
+	for i := 0; i < n; i++ {
+		res := pxResult{Name: "X", Units: []string{"sec/op"}}
+		if r.Chance(0.3) {
+			res.Units = append(res.Units, "B/op")
+		}
+		avail := 1 + (len(keys)-1)*(i+1)/n
+		if r.Chance(0.15) {
+			avail = len(keys)
+		}
+		for _, k := range keys[:avail] {
+			if r.Chance(0.55) {
+				res.Config = append(res.Config, [3]string{k, r.Pick(vals[:r.Range(1, len(vals))]), "file"})
+			}
+		}
+		st = append(st, res)
+	}
+	o.Count("missing-first")
+	return pxProtoCase(o, r, es, st, pxSomePerms(r, len(es), 1), true)
+}
+
+// c09FixedLists: fixed value lists in which words are listed twice, adjacent
+// (c c b a), apart but not interleaved with the word compared (c b c a: c and
+// a), interleaved (a b a), over streams carrying the listed words (and now and
+// then an unlisted one or none: the harness projects without filtering).
+func c09FixedLists(o *hx.Out, r *hx.Rng) error {
+	words := pxShuffled(r, []string{"a", "b", "c", "d", "1", "1.0", "-1k"})[:r.Range(2, 5)]
+	list := append([]string(nil), words...)
+	for i := r.Range(1, 3); i > 0; i-- {
+		w := r.Pick(words)
+		at := r.Intn(len(list) + 1)
+		list = append(list[:at], append([]string{w}, list[at:]...)...)
+	}
+	key := r.Pick([]string{"k1", "/size", ".name"})
+	fs := []pxSpec{{Key: key, Order: "fixed", Fixed: list}}
+	if r.Chance(0.5) {
+		fs = append(fs, pxSpec{Key: "k2", Order: r.Pick([]string{"first", "alpha", "num"})})
+	}
+	es := []*pxExpr{pxE(false, r, fs...)}
+	var st []pxResult
+	for i := r.Range(4, 16); i > 0; i-- {
+		v := r.Pick(words)
+		if r.Chance(0.1) {
+			v = r.Pick([]string{"zz", ""})
+		}
+		res := pxResult{Name: "X", Units: []string{"sec/op"}}
+		switch key {
+		case "k1":
+			if v != "" {
+				res.Config = append(res.Config, [3]string{"k1", v, "file"})
+			}
+		case "/size":
+			if v != "" {
+				res.Name = "X/size=" + v
+			}
+		default:
+			if v != "" {
+				res.Name = v
+			}
+		}
+		if r.Chance(0.5) {
+			res.Config = append(res.Config, [3]string{"k2", r.Pick([]string{"1", "2", "x"}), "file"})
+		}
+		st = append(st, res)
+	}
+	o.Count("fixed-lists")
+	return pxProtoCase(o, r, es, st, [][]int{{0}}, true)
+}
+
 func genC09(o *hx.Out, r *hx.Rng, tier string, replay string) error {
-	o.Rule = "as C08 (one ProjectionParser per run; proto: 2-4 expressions, Residue, every result through every projection; free: random interleavings), with projections mixing the orders first/alpha/num/fixed (fixed lists with repeated words) over value pools on which the comparators tie on distinct strings (1, 1.0, 1e0, 0x1p0, 1k/1000, 1Ki/1024, NaN/nan, -0/0, unparseable words, 12abc/x12, out-of-range 1e400, ...), values appearing late and missing values; observables: Less matrix over all Keys of each projection, SortKeys of the identity, reversed, two random arrangements and a random sub-slice; plus, for every prefix letter k K M G T P E Z Y, a sweep of all spellings (mantissas 1 2 1.5 .5 999 1001 1023 1025; SI and IEC; with and without b/B) next to plain numbers of comparable magnitude (1000^e, 1024^e, +-1, multiples, adjacent powers, e-notation) in num-ordered plain/name/.config fields, and random mixtures across letters; oracle: strconv.ParseFloat of every value and of every maximal [0-9.] run in it, math.Pow(1000|1024, 0..8). non-trivial = every case"
+	o.Rule = "as C08 (one ProjectionParser per run; proto: 2-4 expressions, Residue, every result through every projection; free: random interleavings), with projections mixing the orders first/alpha/num/fixed (fixed lists with repeated words; plus lists with words listed twice adjacent, apart and interleaved over streams of the listed words) over value pools on which the comparators tie on distinct strings (1, 1.0, 1e0, 0x1p0, 1k/1000, 1Ki/1024, NaN/nan, -0/0, unparseable words, 12abc/x12, out-of-range 1e400, ...) and signed numbers with a suffix next to the plain numbers around them (-1k -2k -1500 +1k -1Ki -.5k; signs that belong to no numeral: x-1k -x1k +-1k - -k), values appearing late and missing values; .config groups ordered by first observation over streams in which file keys come and go (a sub-field created when Keys exist that lack it, such Keys interned again later); observables: Less matrix over all Keys of each projection, SortKeys of the identity, reversed, two random arrangements and a random sub-slice; plus, for every prefix letter k K M G T P E Z Y, a sweep of all spellings (mantissas 1 2 1.5 .5 999 1001 1023 1025 and signed -1 -2 -1.5 -.5 +1 +2 -999 -1025; SI and IEC; with and without b/B) next to plain numbers of comparable magnitude (1000^e, 1024^e, +-1, multiples, adjacent powers, e-notation) in num-ordered plain/name/.config fields, and random mixtures across letters; oracle: strconv.ParseFloat of every value and of every maximal [0-9.] run in it (sign + run derived by sign symmetry and re-checked where both are recorded), math.Pow(1000|1024, 0..8). non-trivial = every case"
 	pl := &c09Pools
 	mul := 1
 	if tier == "thorough" {
@@ -139,6 +240,16 @@ func genC09(o *hx.Out, r *hx.Rng, tier string, replay string) error {
 			return err
 		}
 		if err := pxFreeCase(o, r, ops, true); err != nil {
+			return err
+		}
+	}
+	for i := 0; i < 50*mul; i++ {
+		if err := c09FixedLists(o, r); err != nil {
+			return err
+		}
+	}
+	for i := 0; i < 60*mul; i++ {
+		if err := c09MissingFirst(o, r, r.Range(3, 14)); err != nil {
 			return err
 		}
 	}
